@@ -206,7 +206,7 @@ CHECKS["C15"] = {
          "oracles": ["conv-wf", "conv-type-disagrees", "conv-content", "conv-unstable-type", "conv-error-missing", "conv-panic", "process-crash"]},
         {"name": "envcheck", "quick_n": 1000, "thorough_n": 10000, "oracles_only": True, "oracles": ["envcheck-panic"]},
     ],
-    "explanation": "Host data is modelled as a mirror of reflect (GoType/GoVal) with conv.TypeOf/ValOf/TypeEnvOf/ValEnvOf as total functions. Proved: every converted value is deeply well formed with no absent component (C15.valOf_wf, valOf_noNil, typeOf_wf), the reported type is the value's type (typeOfRV_agree) and tyEq the static type for plain values (typeOf_agree_partial; the kernel-checked nil_field_counterexample shows the 'declared optional' precondition is needed), two plain values of one Go type convert to equal types (sample_independent, shape_determines_type), scalars and slice order are preserved (content_scalars, content_slice), nil / unsupported / mixed / too-deep data is an error (error_nil_top, error_nil_inside, error_unsupported_*, error_mixed, error_depth, error_depth_nested). Tie: conv stream (reflect-built values: StructOf/SliceOf/MapOf with tags, pointers, interfaces, all sized numerics, times, unsupported kinds, recursive types, depth 98..103) serialised independently of conv, compared modulo Go map iteration order; oracles for well-formedness, type agreement, contents, type stability, missing errors, panics.",
+    "explanation": "Host data is modelled as a mirror of reflect (GoType/GoVal) with conv.TypeOf/ValOf/TypeEnvOf/ValEnvOf as total functions. Proved: every converted value is deeply well formed with no absent component (C15.valOf_wf, valOf_noNil, typeOf_wf), the reported type is the value's type (typeOfRV_agree) and tyEq the static type for plain values (typeOf_agree_partial; the kernel-checked nil_field_counterexample shows the 'declared optional' precondition is needed), two plain values of one Go type convert to equal types (sample_independent, shape_determines_type), scalars and slice order are preserved (content_scalars, content_slice), nil / unsupported / mixed / too-deep data is an error (error_nil_top, error_nil_inside, error_unsupported_*, error_mixed, error_depth, error_depth_nested). Tie: conv stream (reflect-built values: StructOf/SliceOf/MapOf with tags, pointers, interfaces, all sized numerics, times, unsupported kinds, recursive types, depth 98..103) serialised independently of conv, compared modulo Go map iteration order; oracles for well-formedness, type agreement, contents, type stability, missing errors, panics. CONTENTS (third session; Spec/ConvContent, Proofs/ConvContent*): content_general / content_exact / content_faithful - for every shape and any nesting the converted value holds exactly the content of the host value (numbers as the doubles they convert to, element order of slices and arrays, every map entry under its converted key, every struct field under its tag name, nil optional fields absent, pointers and interfaces transparent), on the nose when the converted keys of every map are pairwise distinct and up to the permutation of entries in general; collision_counterexample / collision_order_dependent (kernel-checked): a Go map two of whose keys are one yae key (int64 2^53 and 2^53+1) converts to ONE entry, and which value survives depends on the iteration order - the hypothesis is necessary; string keys never collide (string_keys_distinct); content_map_lookup / content_struct_lookup (through the accessors m[k] and o.f); env_content / env_binds (environments); sample_accepts - compiled against one plain sample of a Go struct type, any other plain value of that type passes the environment check (envCheck (typeEnvOf g1) (valEnvOf g2) = ok), with sample_rejected_counterexample for a nil untagged pointer.",
     "assumptions": ["content equality of map entries and struct field names is checked by the conv oracle, not restated as a theorem beyond well-formedness"],
 }
 
